@@ -1660,6 +1660,9 @@ func (mgr *Manager) convertStreamJob(allConverters []*converters.CachedConverter
 				if tag.features.MainFeatures&query.FeatureFilterData == 0 && tag.features.SubQueryFeatures&query.FeatureFilterData == 0 {
 					continue
 				}
+				// never change a shared bitmask in place: a running tagging job
+				// and open views still read the previous value
+				tag.Uncertain = tag.Uncertain.Copy()
 				tag.Uncertain.Or(*allStreamIDs[i])
 			}
 			mgr.updatedStreamsDuringTaggingJob.Or(*allStreamIDs[i])
